@@ -546,9 +546,12 @@ fn labelled_lines(text: &str, default: &str) -> Vec<(String, String)> {
     let mut label = default.to_string();
     let mut out = Vec::new();
     for l in text.lines() {
-        if let Some(i) = l.find("/*@") {
+        if let Some(i) = l.find("/*") {
             if let Some(j) = l[i..].find("*/") {
-                label = l[i + 3..i + j].trim().to_string();
+                let inner = l[i + 2..i + j].trim().trim_start_matches('@').trim();
+                if !inner.is_empty() && inner.chars().all(|c| c.is_alphanumeric() || c == '_') {
+                    label = inner.to_string();
+                }
             }
         }
         out.push((l.to_string(), label.clone()));
